@@ -351,3 +351,37 @@ Definition prio {A} (arg : option A) (f : cspec -> option A) (specs : list cspec
   match arg with Some v => v | None => match innermost f specs with Some v => v | None => dflt end end.
 
 Definition bspec_kind (b : bspec) : option ckind := match b with BInst k _ => Some k | BInvalid => None end.
+
+(* ------------------------------------------------------------ the multiprocessing start method
+   One more resolved setting: the context handed to the process-based backends (_backend_kwargs["context"]).  Sources:
+   arg = a multiprocessing context object passed as `backend=` (it also selects MultiprocessingBackend),
+   env = JOBLIB_START_METHOD (DEFAULT_MP_CONTEXT, read at import), dflt = mp.get_context().  Values = start-method codes. *)
+Definition mp_context_model (env arg : option Z) (dflt : Z) : Z := gcp arg env dflt.
+
+(* --------------------------------------------------------------- the life of one Parallel object
+   The record [pres] is resolved ONCE, by Parallel.__init__.  Afterwards the backend is (re)configured: on __enter__, at the
+   start of every call of an unmanaged object, and by abort_everything(ensure_ready=True) after a failed call of a managed
+   object.  [passes] says whether abort_everything hands **self.parallel._backend_kwargs to configure (regenerated per
+   backend family: Gen/T_mp_context.v). *)
+Inductive oop := OEnter | OCallOk | OCallFail | OExit.
+(* one configure call: the n_jobs it got and whether it got the object's resolved backend kwargs *)
+Inductive cfgcall := CFull (r : pres) | CBare (n : Z).
+
+Record pobj := { o_res : pres; o_managed : bool; o_calls : list cfgcall }.
+
+Definition new_obj (r : pres) : pobj := {| o_res := r; o_managed := false; o_calls := [] |}.
+
+Definition ostep (passes : bool) (o : pobj) (op : oop) : pobj :=
+  let r := o_res o in
+  match op with
+  | OEnter => {| o_res := r; o_managed := true; o_calls := o_calls o ++ [CFull r] |}
+  | OCallOk => if o_managed o then o else {| o_res := r; o_managed := false; o_calls := o_calls o ++ [CFull r] |}
+  | OCallFail =>
+      if o_managed o
+      then {| o_res := r; o_managed := true;
+              o_calls := o_calls o ++ [if passes then CFull r else CBare (r_njobs r)] |}
+      else {| o_res := r; o_managed := false; o_calls := o_calls o ++ [CFull r] |}   (* ensure_ready=False: no reconfigure *)
+  | OExit => {| o_res := r; o_managed := false; o_calls := o_calls o |}
+  end.
+
+Definition orun (passes : bool) (ops : list oop) (o : pobj) : pobj := fold_left (ostep passes) ops o.
